@@ -119,6 +119,11 @@ func (g GenSchema) renderMarshalTag() string {
 		result.WriteString(",string")
 	}
 
+	if result.String() == "-" {
+		// a property named "-": the tag `json:"-"` means "skip this field", encoding/json spells the key "-,"
+		return "-,"
+	}
+
 	return result.String()
 }
 
